@@ -485,6 +485,11 @@ def _int_ctor(interp, st, args, kwargs):
             else:
                 yield s, Raised(Exc('ValueError'))
         return
+    if isinstance(v, float) or (isinstance(v, SV) and v.ty == sym.REAL):
+        # int(x) truncates towards zero (floats are treated as mathematical reals)
+        z = lift(v, sym.REAL).z
+        yield st, SV(INT, z3.If(z >= 0, z3.ToInt(z), -z3.ToInt(-z)))
+        return
     raise Unsupported('int(...) form')
 
 
@@ -753,6 +758,17 @@ def list_method(interp, st, recv, name, args, kwargs):
         yield st, None
     elif name == 'sort':
         yield from _sorted_heap(interp, st, recv, kwargs, inplace=True)
+    elif name == 'pop' and not args:
+        n = st.heap.read(cls, 'len', recv.z)
+        for s, nonempty in interp.branch(st, n > 0):
+            if nonempty:
+                n1 = s.heap.read(cls, 'len', recv.z)
+                v = SV(cls.elem, z3.Select(s.heap.read(cls, 'arr', recv.z), n1 - 1))
+                s.heap.write(cls, 'len', recv.z, n1 - 1)
+                s.emit('list_pop', target=recv, value=v)
+                yield s, v
+            else:
+                yield s, Raised(Exc('IndexError'))
     else:
         raise Unsupported(f'heap list method {name}')
 
